@@ -488,7 +488,7 @@ func c08One(c *ctx, inp *bgzfInput, d *Driver, impl *[]string) {
 		}
 		d.add("c01.write %s", strings.Join(in.Ops, ","))
 		*impl = append(*impl, fmt.Sprintf("%s|%s|%d", strings.Join(wr.results, ","), intsJoin(plens), wr.lastNext))
-		// the script abstraction of the writer LTS (WriterAbs.absScript, what the byte-determinism theorems compose
+		// the script abstraction of the writer LTS (WriterCompose.absScript in Model/WriterAbs.lean, what the byte-determinism theorems compose
 		// with) against (i) the Go re-implementation `wSim` the C12/C09 harness builds its abstract scripts with,
 		// (ii) the implementation itself: Writer.Next() != 0 before every Flush, and the number of data members written
 		{
